@@ -10,11 +10,11 @@ Theorem C10src_suites : forall fuel raw cfg, small raw ->
 Proof.
   intros fuel raw cfg Hs. destruct (C10_suites raw cfg) as (H1 & H2 & H3).
   rewrite src_NewRawSuite_eq, src_parseRawSuite_eq, src_NewSuite_eq, src_IsKnownSuite_eq, src_SuiteConfigFromRaws_eq by exact Hs.
-  repeat split; try (apply lift_cfg_returns; assumption); eexists; reflexivity.
+  repeat split; try (apply lift_cfg_returns; assumption); try (eexists; reflexivity).
 Qed.
 Print Assumptions C10src_suites.
 
-Theorem C10src_helpers : forall fuel s c q p se t n, (258 <= fuel)%nat -> small s -> (0 <= n < 4611686018427387904)%Z ->
+Theorem C10src_helpers : forall fuel s c q p se t n, (258 <= fuel)%nat -> small s -> (n < 4611686018427387904)%Z ->
   returns (Src.To8ByteBigEndian fuel 0) /\ returns (Src.ParseDecimalToBigEndian8 fuel s) /\ returns (Src.ParseDecimal64BigEndian fuel s) /\
   returns (Src.ParseHexTimestamp fuel s) /\ returns (Src.ParseDecimalChallengeRFC6287 fuel s) /\
   returns (Src.HexInputToOCRA c q p se t) /\ returns (Src.LeftPadHex s n).
@@ -25,8 +25,8 @@ Proof.
   rewrite src_LeftPadHex_eq by (assumption || lia).
   repeat split; try (apply lift_oc_returns; assumption); try (eexists; reflexivity).
   - unfold lift_in. destruct (hex_input_to_ocra c q p se t) as [x|e|]; [eexists; reflexivity|eexists; reflexivity|congruence].
-  - specialize (H5 ltac:(lia)). destruct (left_pad_hex s n) as [x|e|] eqn:E; [eexists; reflexivity| |congruence].
-    exfalso. unfold left_pad_hex in E. destruct (n <=? zlen s)%Z; [destruct (n <? 0)%Z|]; discriminate.
+  - destruct (left_pad_hex s n) as [x|e|] eqn:E; [eexists; reflexivity| |congruence].
+    exfalso. unfold left_pad_hex in E. destruct (n <=? 0)%Z; [discriminate|]. destruct (n <=? zlen s)%Z; discriminate.
 Qed.
 Print Assumptions C10src_helpers.
 
